@@ -111,7 +111,7 @@ def build_quantifier(lo: int, hi: int, unbounded: bool) -> bool:
     return text == "{%d,%d}" % (lo, hi)
 
 
-def convert(nullable: bool, ro_a: bool, ro_b: bool, req_a: bool, req_b: bool, copy: bool, nullable_name_idx: int) -> bool:
+def convert(nullable: bool, explicit_false: bool, ro_a: bool, ro_b: bool, req_a: bool, req_b: bool, copy: bool, nullable_name_idx: int) -> bool:
     """
     pre: 0 <= nullable_name_idx <= 1
     post: _
@@ -130,9 +130,11 @@ def convert(nullable: bool, ro_a: bool, ro_b: bool, req_a: bool, req_b: bool, co
     schema = {"type": "object", "properties": props, "required": required}
     if nullable:
         schema[nullable_name] = True
+    elif explicit_false:
+        schema[nullable_name] = False  # `nullable: false` is the documented default written out: null is NOT allowed
     snapshot = {"type": "object", "properties": {k: dict(v) for k, v in props.items()}, "required": list(required)}
-    if nullable:
-        snapshot[nullable_name] = True
+    if nullable_name in schema:
+        snapshot[nullable_name] = schema[nullable_name]
     out = converter.to_json_schema(schema, nullable_name=nullable_name, copy=copy)
     if copy and schema != snapshot:
         return False  # the declared schema must not be modified
@@ -144,6 +146,8 @@ def convert(nullable: bool, ro_a: bool, ro_b: bool, req_a: bool, req_b: bool, co
             return False
     else:
         inner = out
+        if "anyOf" in out or out.get("type") != "object":
+            return False  # null must not become acceptable
     # NOTE: with `nullable` the object keywords live under anyOf[0]; readOnly handling there is done when that subschema
     # is visited by the recursive transform - this harness checks the non-nullable case for it.
     if not nullable:
@@ -227,7 +231,7 @@ OBLIGATIONS = [
        symbolic="min_repeat, max_repeat (or unbounded), minLength, maxLength: unbounded ints >= 0", bounds="all non-negative ints below MAXREPEAT (2**32-1)"),
     Ob(fn="build_quantifier", clause="the quantifier text denotes the computed bounds", timeout={"quick": 120, "thorough": 300},
        functions=["schemathesis.specs.openapi.patterns._build_quantifier"], symbolic="lo, hi, unbounded flag", bounds="0 <= lo <= hi <= 12"),
-    Ob(fn="convert", clause="readOnly properties are never sent (removed from properties/required, forbidden via not.required); nullable becomes anyOf[..., null]; the declared schema is not modified",
+    Ob(fn="convert", clause="readOnly properties are never sent (removed from properties/required, forbidden via not.required); nullable: true becomes anyOf[..., null] while an absent or explicit `nullable: false` never admits null; the declared schema is not modified",
        timeout={"quick": 120, "thorough": 300}, functions=["schemathesis.specs.openapi.converter.to_json_schema", "schemathesis.specs.openapi.converter.rewrite_properties",
                                                              "schemathesis.specs.openapi.converter.forbid_properties", "schemathesis.specs.openapi.converter.is_read_only"],
        symbolic="nullable flag, readOnly flag and required-membership of two properties, copy flag, nullable keyword spelling", bounds="one object schema with 3 properties"),
